@@ -121,6 +121,8 @@ class Gen:
                     ls.append('  ---')
                     ls.append('  more')
             docs.append('\n'.join(ls))
+        if r.random() < 0.12:
+            docs.append('/-/-/-/')          # a document that is the escape token itself (a plain scalar)
         t = '\n---\n'.join(docs)
         if r.random() < 0.6:
             t += '\n'
